@@ -44,10 +44,14 @@ def queries():
     for pl in list(range(1, 11)) + [12, 14, 16]:
         qs.append(Q("split-any-pl%d" % pl, "C02_split.c", SPLIT_SRCS,
                     defs={"MODE": 1, "PL": pl, "VERIF_HCAP": 4, "VERIF_KEY4": None}, unwind=max(pl + 3, 7), instr=RH,
-                    leak=True, tier="quick" if pl <= 10 else "thorough"))
+                    leak=True, tier="quick" if pl <= 8 else "thorough"))
     for depth in range(4):
         for dlen in range(0, 10):
             qs.append(Q("dispatch-depth%d-dl%d" % (depth, dlen), "C06_route.c", ROUTE_SRCS,
                         defs={"DEPTH": depth, "DLEN": dlen, "VERIF_QCAP": 3, "MODE_SHORT": None}, unwind=42, leak=True,
-                        pre=gen_readme_route, tier="quick" if depth == 0 or dlen in (0, 2) else "thorough"))
+                        pre=gen_readme_route, tier="quick" if (depth == 0 and dlen in (0, 1, 2, 4, 8, 9)) or (depth in (1, 3) and dlen in (0, 2)) else "thorough"))
+    from queries.C07 import SRCS as FOLD_SRCS, UW as FOLD_UW
+    for vlen in (2, 3, 4, 6):
+        qs.append(Q("vendor-any-len%d" % vlen, "C07_fold.c", FOLD_SRCS, defs={"KIND": 95, "VLEN": vlen, "VERIF_GARRAY_CAP": 9},
+                    unwind=8, unwindset=[u for u in FOLD_UW if not u.startswith("strndup")] + ["strndup.0:9", "strndup.1:9"], tier="quick" if vlen in (2, 4) else "thorough"))
     return qs
